@@ -627,6 +627,13 @@ impl Ctx {
         } else {
             for f in &rep.fails {
                 self.count_known(&f.sig, 1);
+                if self.discover {
+                    let mut ex = self.examples.lock().unwrap();
+                    let cur = ex.get(&f.sig);
+                    if cur.map(|c| c.len() > text.len() + f.detail.len() + 12).unwrap_or(true) {
+                        ex.insert(f.sig.clone(), format!("{:?}  ==> {}", text, f.detail));
+                    }
+                }
             }
         }
     }
